@@ -690,7 +690,13 @@ func (env *SpecEnv) call(x *SExpr) Value {
 		return boolVal(mkAnd(cs...))
 	case "parr", "pidx":
 		// parr(p) / pidx(p): backing array id and absolute index of an interior pointer
-		pv, ok := env.eval(x.Args[0]).(PtrVal)
+		av := env.eval(x.Args[0])
+		if sc, isS := av.(Scalar); isS {
+			if et, isInt := interiorElem(sc.Typ); isInt {
+				av = ptrFromTerm(sc.T, et, sc.Typ)
+			}
+		}
+		pv, ok := av.(PtrVal)
 		if !ok {
 			env.fail(x, x.Name+"(interior pointer)")
 		}
